@@ -66,12 +66,25 @@ theorem layout_names (r : Rec) (hs : r.isUnion = false) : r.layout.map (·.name)
 
 /-! ## The property over the current tree (finite tables regenerated on every run) -/
 
-/-- IPv4 build: every offset and size used by the Go code (policy-program builder constants,
-`state.State`, conntrack / NAT / IP-set keys and values) equals the C member's, and total sizes
-agree. -/
+/-- IPv4 build, FULL strength for the rows it lists (`Gen.V4.goRows`: every Go-side fact for which the
+Go code has an offset AND a size — policy-program loads/stores that cover a whole member, the
+`state.State` mirror fields, conntrack / NAT / IP-set / route / ifstate / ARP / failsafe /
+cleanup-queue encoders and accessors, the conntrack-leg bit-fields, total sizes): same offset and
+same size as the C member. -/
 theorem go_matches_c_v4 : Gen.V4.goRows.all (rowOk Gen.V4.structs) = true := Gen.V4.go_matches_c
 /-- IPv6 build. -/
 theorem go_matches_c_v6 : Gen.V6.goRows.all (rowOk Gen.V6.structs) = true := Gen.V6.go_matches_c
+
+/-- The remaining rows (`goWeakRows`) hold only in a WEAKER sense than "same offset and same size",
+which is all that is meaningful or observable for them — hence `_partial`:
+`within` — the Go access starts at the member but is shorter (low byte of the u32 `rules_hit`; a
+uint8 protocol / prefix length kept in a `__u32`; 15 of the 16 `name` bytes; an ifindex in the first
+4 bytes of an IPv6 `next_hop`); `inside` — a chunk of a wider member (64-bit halves of an IPv6
+address, 32-bit halves of the packed 64-bit `set_id`, one element of `rule_ids[]`); `offset` — a
+`stateOff*` constant that is defined but never used in an access; `atmost` — one 512-byte map value
+serves the 464-byte IPv4 and the 512-byte IPv6 `cali_tc_state`; `mirror-size` (see below). -/
+theorem go_weak_rows_v4_partial : Gen.V4.goWeakRows.all (rowOk Gen.V4.structs) = true := Gen.V4.go_weak_rows_ok
+theorem go_weak_rows_v6_partial : Gen.V6.goWeakRows.all (rowOk Gen.V6.structs) = true := Gen.V6.go_weak_rows_ok
 
 /-- The layout algorithm agrees with clang 14 (`-target bpf -fdump-record-layouts`) on every record
 of the real headers, both builds: member offsets (bits), sizeof, alignof. -/
@@ -110,7 +123,7 @@ example : Gen.V4.calico_ct_value.size = 88 ∧ Gen.V6.calico_ct_value.size = 128
 example : Gen.V6.cali_tc_state.size = 512 ∧ Gen.V4.cali_tc_state.size = 464 := by decide +kernel
 example : findPath Gen.V4.structs "cali_tc_state" "pol_rc" = some (8 * 92, 32) := by decide +kernel
 example : findPath Gen.V6.structs "calico_ct_leg" "workload" = some (134, 1) := by decide +kernel
-example : Gen.V4.goRows.length > 100 ∧ Gen.V6.goRows.length > 60 := by decide +kernel
+example : Gen.V4.goRows.length > 100 ∧ Gen.V6.goRows.length > 60 ∧ Gen.V4.goWeakRows.length < 30 := by decide +kernel
 /-- a packed record really is laid out without padding: `saddr` of `calico_nat_key` at byte 11. -/
 example : findPath Gen.V4.structs "calico_nat_key" "saddr" = some (88, 32) := by decide +kernel
 
